@@ -10,7 +10,10 @@ Contract (postcondition of MichelineSequence.execute / every instruction's `exec
               the FAILWITH value has the static type of the failing slot;
               the storage returned by run_code is a value of the storage type.
     in particular MAP / ITER keep the key type of maps and MAP assigns the body's result type to the elements —
-    also for empty collections (the static type does not depend on the run-time contents).
+    also for empty collections (the static type does not depend on the run-time contents); UPDATE n gives the comb the
+    type of the NEW element at the replaced position (theme `update-comb`: the new element has the same outer constructor
+    as the replaced component / right sub-comb — option, list, set, map, or, pair, lambda — but other type arguments);
+    UPDATE / GET_AND_UPDATE on maps keep the map type (theme `map-update`).
 
 R mode, bounded: the C01 engine on type-shape themes: collections whose keys / elements are nested pairs, unions and
 options (bounded/C01_gen.py: SHAPES), transformed by MAP / ITER / IF_* / collection and option/or instructions.
@@ -21,9 +24,11 @@ from vlib.runner import Check
 REPLAY = 'props.C02:replay'
 
 QUICK = {
-    'shapes': dict(ex_len=1, walk_len=3, walks=25, body_len=1, inputs=2, budget=3600),
-    'shape-keys': dict(ex_len=1, walk_len=3, walks=60, body_len=1, inputs=3, budget=900),
-    'structures': dict(ex_len=1, walk_len=3, walks=30, body_len=1, inputs=2, budget=700),
+    'shapes': dict(ex_len=1, walk_len=3, walks=25, body_len=1, inputs=2, budget=3000),
+    'shape-keys': dict(ex_len=1, walk_len=3, walks=60, body_len=1, inputs=3, budget=800),
+    'structures': dict(ex_len=1, walk_len=3, walks=30, body_len=1, inputs=2, budget=600),
+    'update-comb': dict(ex_len=1, walk_len=3, walks=12, body_len=1, inputs=1, budget=3200),
+    'map-update': dict(ex_len=1, walk_len=3, walks=40, body_len=1, inputs=2, budget=500),
 }
 THOROUGH = {
     'shapes': dict(ex_len=1, walk_len=4, walks=200, body_len=2, inputs=3, budget=60000),
@@ -31,6 +36,8 @@ THOROUGH = {
     'structures': dict(ex_len=2, walk_len=5, walks=400, body_len=2, inputs=3, budget=20000),
     'control': dict(ex_len=1, walk_len=5, walks=400, body_len=2, inputs=3, budget=15000),
     'lambdas': dict(ex_len=1, walk_len=4, walks=300, body_len=1, inputs=3, budget=8000),
+    'update-comb': dict(ex_len=2, walk_len=4, walks=200, body_len=1, inputs=2, budget=20000),
+    'map-update': dict(ex_len=2, walk_len=4, walks=300, body_len=1, inputs=3, budget=8000),
 }
 
 
